@@ -61,7 +61,50 @@ def _rest(keys, already):
     return [k for k in keys if k not in already]
 
 
+CONV_V2 = [P_ + 'v2::convert::' + f for f in ('write::hot_cues', 'write::loops', 'write::beatgrid_markers', 'write::beatgrid', 'write::waveform', 'write::duration',
+                                                'read::hot_cues', 'read::loops', 'read::beatgrid_markers', 'read::waveform', 'read::duration')]
+
+def _c06_functions():
+    import os, re
+    f = os.path.join(os.path.dirname(os.path.dirname(os.path.abspath(__file__))), 'contracts', 'track_v2_c06.spec')
+    return [l.strip()[4:-1] for l in open(f) if l.startswith('[fn djinterop::engine::v2::track_impl::')]
+
+
 PROPS = {
+    'C06': {
+        'tus': [E + 'v2/track_impl.cpp'],
+        'functions': _c06_functions() + CONV_V2,
+        'level': 'proof',
+        'timeout': {'quick': 900, 'thorough': 3600},
+        'assumptions': [
+            'PARTIAL: decided for schema 2.x only, per operation: every public getter and setter of v2::track_impl (26 fields incl. the per-slot cue / loop accessors) against a GHOST COLUMN STORE that stands for the SQL table layer',
+            'ASSUMED, not decided (it is SQL: C18 under not_applicable): each track_table::get_X / set_X pair reads / overwrites exactly one column of the addressed row and nothing else, on every 2.x schema version, through the blob codecs (C03/C04); other tracks are other rows and are not touched by a single-row statement',
+            'the step from the per-operation contracts to "after ANY sequence of setter calls each getter returns the value last set" is an induction over the history with the ghost columns as state (each setter writes only the stated columns and preserves the other fields of a shared blob; each getter is a function of its own columns / blob fields): the induction itself is argued, not mechanised',
+            'getter-after-setter values: the composition R(W(x)) per field is the same composition that the C01 lemma harness checks for the snapshot path; here it is read off the two contracts of the pair',
+            'NOT covered: schema 1.x (engine_track_impl setters read-modify-write PerformanceData and metadata rows); agreement of the getters with snapshot() is covered only in that both are specified over the same columns with the same conversions (C01 contracts for snapshot())',
+            'strings are compared by provenance token, vectors through one arbitrary element (ghost indices), as for C01; the waveform setter is specified up to what a round trip needs (length, and every entry for an overview-length waveform)',
+            'domain: stored length within +-2^63/1000 s for duration(); stored sample rate in [0, 2^31] for set_waveform',
+        ],
+        'explanation': 'For each public field: the setter leaves verif_written == exactly its column set, stores the stated conversion of its argument, and keeps every other field of a blob it shares (track data: rate / count / key / loudness; beat data: rate / count / grids; quick cues: main cue / slots; per-slot setters: every other slot); the getter writes nothing and returns the stated conversion of its column. Proved on the real accessor bodies with the table accessors replaced by the ghost column store.',
+    },
+    'C01': {
+        'tus': [E + 'v2/track_impl.cpp'],
+        'functions': CONV_V2 + [P_ + 'v2::' + ANON + 'snapshot_to_row', P_ + 'v2::track_impl::snapshot', 'harness:C01.v2_round_trip', 'lemma:C01.whole_seconds', 'lemma:C01.quantum'],
+        'level': 'proof',
+        'timeout': {'quick': 900, 'thorough': 3600},
+        'assumptions': [
+            'PARTIAL: decided for the schema-2.x C++ conversion layer only: snapshot_to_row (snapshot -> track row, used by create_track and update), track_impl::snapshot from the fetched row on (row -> snapshot) and every convert::read / convert::write helper they call',
+            'ASSUMED, not decided (it is SQL: see C18 under not_applicable): track_table::add / update / get store the row they are given and return it unchanged on every 2.x schema version, including through the blob codecs (whose round trip on values this layer produces is C03) and the timestamp columns (whole-second resolution of last_played_at is applied there, not in this layer)',
+            'NOT covered: schema 1.x (engine_track_impl create_track / update / snapshot go through metadata tables and string-typed columns); on 1.x the BPM read back is derived from the beat grid or truncated to an integer, which this check does not examine',
+            'strings are compared by provenance: every input string carries an arbitrary token that the string model keeps on copy (copy also copies every byte) and that nothing else produces; "same size and token" means "a copy of that input string"',
+            'vectors are abstract: facts are stated for one arbitrary element (ghost index verif_g2), element strings are valid for that element only; allocation failure is not modelled',
+            'domain: sample rate absent or in [0, 2^31] (the domain of the waveform extents contract, C19); stored length within +-2^63/1000 seconds when read; doubles compared by bit pattern (so NaNs and signed zeros are covered)',
+            'util::get_filename / get_file_extension are external stubs (any string / optional string); the fixed point assumes they are deterministic in the path',
+            'the waveform is specified up to what the round trip needs: its stored length (0 or 1024) and, for a waveform that already has 1024 entries, every entry; which entry of a longer waveform the resampling picks is not specified',
+            'the 64-bit division in convert::write::duration is related to the specification by cbmc --z3 (one property group); SAT cannot relate two division circuits in time',
+        ],
+        'explanation': 'Every convert::read / convert::write helper with a loop is proved against an element-wise specification (loop invariants for one arbitrary element); snapshot_to_row and the row-to-snapshot part of track_impl::snapshot are proved field by field against explicit expressions of their inputs (all 25 snapshot fields, wiring included); the round trip (each representable field exactly as given, lists padded to eight slots, whole-second durations, ratings clamped, sentinels read as absent) and the fixed point of a second write/read are a lemma harness over those two contracts.',
+    },
     'C15': {
         'tus': [EDU] + V2 + V1 + [E + 'v2/track_impl.cpp', E + 'v1/engine_track_impl.cpp', E + 'engine.cpp'],
         'functions': SLOT_API + [P_ + 'v2::convert::write::waveform', P_ + 'v1::' + ANON + 'to_length_fields', P_ + 'v1::engine_track_impl::set_sample_count', P_ + 'v1::engine_track_impl::set_sample_rate',
